@@ -1142,14 +1142,20 @@ func (pk *Packet) AuthDecode(buf []byte) error {
 	var offset int
 	var err error
 
+	if pk.FixedHeader.Remaining == 0 {
+		return nil // reason code 0x00 and no properties [MQTT5 3.15.2.1]
+	}
+
 	pk.ReasonCode, offset, err = decodeByte(buf, offset)
 	if err != nil {
 		return fmt.Errorf("%s: %w", err, ErrMalformedReasonCode)
 	}
 
-	_, err = pk.Properties.Decode(pk.FixedHeader.Type, bytes.NewBuffer(buf[offset:]))
-	if err != nil {
-		return fmt.Errorf("%s: %w", err, ErrMalformedProperties)
+	if pk.FixedHeader.Remaining > 1 {
+		_, err = pk.Properties.Decode(pk.FixedHeader.Type, bytes.NewBuffer(buf[offset:]))
+		if err != nil {
+			return fmt.Errorf("%s: %w", err, ErrMalformedProperties)
+		}
 	}
 
 	return nil
